@@ -869,13 +869,13 @@ pub fn get_value(
 
             if let Some(entry) = entry {
                 if let Ok(mut f) = crate::util::open_regular_file(&entry.path()) {
-                    let mut contents = String::new();
-                    if f.read_to_string(&mut contents).is_ok() {
-                        if contents.contains(&function_arg) {
-                            return Variant::from_bool(true);
-                        } else {
-                            return Variant::from_bool(false);
-                        }
+                    // the bytes are searched: a file need not be valid UTF-8 to contain a string
+                    let mut contents = vec![];
+                    if f.read_to_end(&mut contents).is_ok() {
+                        let needle = function_arg.as_bytes();
+                        let found = needle.is_empty()
+                            || contents.windows(needle.len()).any(|window| window == needle);
+                        return Variant::from_bool(found);
                     }
                 }
             }
